@@ -317,6 +317,7 @@ static struct miter {
 	int parked_gone;     /* that key was removed while the iterator sits on it */
 	const char *pref;    /* NULL: full iterator; else a trie prefix iterator */
 } IT[MAXIT];
+static int parked_seeds;
 static int prefix_second_iter;   /* iterator 1 on a trie is qb_map_pref_iter_create(M, "ab") */
 static int it_covers(int i, int k) { return !IT[i].pref || !strncmp(keyinit[k], IT[i].pref, strlen(IT[i].pref)); }
 
@@ -483,6 +484,17 @@ static void run(void)
 			for (i = 0; i < 4; i++) { int k = rev ? 3 - i : i; if (sub & (1 << k)) op_put(k); }
 		}
 	}
+#if WITH_ITERS
+	if (parked_seeds) {
+		/* non-initial iterator states: iterators already positioned on (adjacent) entries when the history starts */
+		static const int pos[6][2] = { { -1, -1 }, { 1, -1 }, { 1, 2 }, { 2, 3 }, { 2, 2 }, { 2, 1 } };
+		int sd = vp_choose(6, "iterators parked at the start"), j, k;
+		for (j = 0; j < 2; j++) if (pos[sd][j] >= 0) {
+			op_iter_create(j);
+			for (k = 0; k < pos[sd][j] && !IT[j].done; k++) op_iter_next(j);
+		}
+	}
+#endif
 	for (step = 0; step < depth; step++) {
 		int n = 0, c, base_put, base_rm, base_misc, base_not, base_it;
 		int npref = mtype == TR ? NPREF : 0;
